@@ -219,3 +219,88 @@ func init() {
 func containsBytes(s string, sub []byte) bool {
 	return len(sub) > 0 && stringsContains(s, string(sub))
 }
+
+// C15 state: the caller's own bound variables (the filter is given pointers to them) and the
+// filters built so far.
+var (
+	fFromVar, fToVar date.Date
+	fFromNil, fToNil = true, true
+	fFilters         []date.Filter
+)
+
+func optDate(v any) (date.Date, bool) {
+	a := ints(v)
+	if len(a) == 0 {
+		return date.Date{}, true
+	}
+	return date.New(a[0], date.Month(a[1]), a[2]), false
+}
+
+func init() {
+	ops["date.freset"] = func(e Ev) Ev {
+		fFilters = nil
+		fFromNil, fToNil = true, true
+		fFromVar, fToVar = date.Date{}, date.Date{}
+		return e
+	}
+	// the caller assigns its variables (the same variables every time, so a filter that kept
+	// the pointers would see the change)
+	ops["date.vars"] = func(e Ev) Ev {
+		fFromVar, fFromNil = optDate(e["from"])
+		fToVar, fToNil = optDate(e["to"])
+		return e
+	}
+	ops["date.fbuild"] = func(e Ev) Ev {
+		var from, to *date.Date
+		if !fFromNil {
+			from = &fFromVar
+		}
+		if !fToNil {
+			to = &fToVar
+		}
+		f, err := date.FilterFromTo(from, to)
+		e["ok"] = err == nil
+		e["is"] = dateIs(err)
+		if err == nil {
+			fFilters = append(fFilters, f)
+		}
+		return e
+	}
+	ops["date.fcontains"] = func(e Ev) Ev {
+		i := num(e["i"])
+		if i < 1 || i > len(fFilters) {
+			fatal("date.fcontains: no filter %d", i)
+		}
+		e["r"] = fFilters[i-1].Contains(mkDate(e["p"]))
+		return e
+	}
+}
+
+func init() {
+	// C09 graph: DefaultParser[string] with no limit and rule 0 over every string on
+	// {0,1,2,3,9,-} up to length 8 (thorough 9) plus every extension of "20" up to length 10.
+	graphs["g09"] = func(tier string, g *graphOut) {
+		old := date.MaxInputLength
+		date.MaxInputLength = 0
+		defer func() { date.MaxInputLength = old }()
+		maxLen := 8
+		if tier == "thorough" {
+			maxLen = 9
+		}
+		g.Domain = "strings over {0,1,2,3,9,-}: all of length <= maxLen, plus all extensions of \"20\" up to length 10"
+		enumStrings([]byte("01239-"), maxLen, [][]byte{[]byte("20")}, 10, func(s []byte) {
+			g.Total++
+			var d date.Date
+			var err error
+			p := try(func() { d, err = date.DefaultParser(string(s), 0) })
+			switch {
+			case p:
+				g.Anomalies = append(g.Anomalies, []any{B(s), "panic"})
+			case err == nil:
+				g.Accepted = append(g.Accepted, []any{B(s), ymd(d)})
+			case !dateTyped(err) || d != (date.Date{}) || len(dateIs(err)) != 0:
+				g.Anomalies = append(g.Anomalies, []any{B(s), "untyped/nonzero/sentinel rejection"})
+			}
+		})
+	}
+}
